@@ -179,14 +179,23 @@ func (w *Writer) encodeChar(c uint) {
 
 		// if node's address is odd-numbered, choose bigger brother node
 		if k&1 != 0 {
-			i += 0x8000
+			i += 0x80000000
 		}
 
 		if k = w.z.prnt[k]; k == _R {
 			break
 		}
 	}
-	w.putCode(j, i)
+
+	// The code is collected in a 32 bit word: skewed symbol frequencies make codes longer
+	// than 16 bits (the decoder has no such limit), which do not fit the 16 bit code
+	// word of putCode in one piece.
+	if j > 16 {
+		w.putCode(16, i>>16)
+		w.putCode(j-16, i&0xffff)
+	} else {
+		w.putCode(j, i>>16)
+	}
 	w.z.update(int(c))
 }
 
